@@ -294,6 +294,12 @@ impl Connector {
                 )
             }
         };
+        // The connector's geometry is what its ends determine: end points or points
+        // written on the element as well don't survive into the output.
+        let mut element = element;
+        element.remove_attrs(&[
+            "x1", "y1", "x2", "y2", "xy1", "xy2", "points", "x", "y", "xy", "cx", "cy", "cxy",
+        ]);
         Ok(Self {
             source_element: element,
             start,
